@@ -77,8 +77,9 @@ func init() {
 
 func Spec() *mon.Spec {
 	return &mon.Spec{
-		ID:    "C06",
-		Level: "exploration",
+		ID:      "C06",
+		RuleAdd: "Later additions (rounds 4-17): five ways of handing the list to the builder (AddAll, Add, mixed with the caller reusing its slice, two builders from one slice, build-AddAll-build), a build for another target first, multiset counts, a blank definition somewhere in the list.",
+		Level:   "exploration",
 		Rule: "every call Builder.Read{Coils,DiscreteInputs,HoldingRegisters,InputRegisters}{TCP,RTU}() is observed; oracle over the valid fields of the requested kind in integer arithmetic: error, or (a) each field in exactly one request, (b) same server and unit, (c) span inside [start,start+qty), (d) window tight, (e) 1<=qty<=125/2000, (f) reference decoder of Bytes() gives the descriptor's unit/start/quantity, right function and framing, (g) no empty request, (h) a group whose total span fits the limit is one request, (i) no field of the other kind. " +
 			"lattice: small-scope exhaustive - all multisets of <=2 (quick) / <=3 (thorough) fields over addresses {0..3,120..130,1995..2005,65408..65412,65530..65535} x sizes {1,2,4 registers, strings of 3/250/255 bytes, coil}; random: PRNG lists of 0..300 fields with clusters at limit-1/limit/limit+1, duplicates, overlaps, hostile server/unit names (prefix pairs), invalid definitions. distinct key = hash(sorted fields, target).",
 		Assumptions: []string{"field span = documented register size of its type (string: ceil(len/2)); windows may numerically extend past 65535 (the constructors allow it); 'returns an error' is always permitted, non-error outcomes are counted separately"},
